@@ -337,7 +337,7 @@ class Check:
 # --------------------------------------------------------------------------- parallel map
 
 
-def pmap(fn, items, procs=6, chunk=None):
+def pmap(fn, items, procs=6, chunk=None, fresh=False):
     """Map fn over items in forked worker processes (each imports scenic afresh from /repo).
     fn must be a top-level function; results are returned in order."""
     import multiprocessing as mp
@@ -353,6 +353,9 @@ def pmap(fn, items, procs=6, chunk=None):
     if procs == 1:
         return [fn(x) for x in items]
     ctx = mp.get_context("fork")
+    if fresh:  # one forked child per item: every item starts from the parent's pristine state
+        with ctx.Pool(procs, maxtasksperchild=1) as pool:
+            return pool.map(fn, items, chunksize=1)
     if chunk is None:
         chunk = max(1, len(items) // (procs * 8))
     with ctx.Pool(procs) as pool:
